@@ -303,9 +303,18 @@ def chain_source(repo: Repo) -> RuleRun:
             neg_t = any(isinstance(s, ast.Assign) and ast.unparse(s) == "length = -length" for s in br.body)
             neg_f = any(isinstance(s, ast.Assign) and "-length" in ast.unparse(s) for s in br.orelse)
             r.check(neg_t and not neg_f, fn, "length negated only when chaining from the start face", f"{fn.qualname}: length negated in start branch={neg_t}, in end branch={neg_f}", br, key="negate")
-            guards = [n for n in walk_shallow(fn.node) if isinstance(n, ast.If) and isinstance(n.test, ast.Compare) and ast.unparse(n.test.left) == "length" and isinstance(n.test.ops[0], (ast.Lt, ast.LtE)) and isinstance(n.test.comparators[0], ast.Constant) and n.test.comparators[0].value == 0 and any(isinstance(b, ast.Raise) for b in n.body)]
-            ok = bool(guards) and fn.node.body.index(guards[0]) < fn.node.body.index(br) if guards and guards[0] in fn.node.body else bool(guards)
-            r.check(ok, fn, "negative length rejected before use", f"{fn.qualname} does not reject a negative length before selecting the sketch", fn.node, key="negative-length")
+            # abstract evaluation: a negative length is rejected before the source is even looked at
+            rejected = True
+            for start in (False, True):
+                extra = [1] if "radius_2" in params and params.index("radius_2") == 3 else []
+                try:
+                    Evaluator(repo=repo, module=fn.module).call_funcinfo(fn, [Sym("cls"), Sym("source"), -1, *extra], {"start_face": start})
+                    rejected = False
+                except Raised:
+                    pass
+                except NotEvaluable:
+                    rejected = False  # the guard let the negative length through to the geometry
+            r.check(rejected, fn, "negative length rejected before use (either face)", f"{fn.qualname} does not reject a negative length for start_face=True and start_face=False alike", fn.node, key="negative-length")
         if qn.endswith("Hemisphere.chain"):
             neg_t = any("-source.sketch_1.normal" in ast.unparse(s).replace(" ", "") or "normal=-" in ast.unparse(s).replace(" ", "") for s in br.body)
             neg_f = any("=-" in ast.unparse(s).replace(" ", "") for s in br.orelse)
